@@ -79,6 +79,8 @@ impl RangeListTable {
         address_size: u8,
         have_unit_base_address: bool,
     ) -> Result<RangeListOffsets> {
+        // A range that begins with this value would be read as a base address selection.
+        let marker = !0 >> (64 - address_size * 8);
         let mut offsets = Vec::new();
         for range_list in self.ranges.iter() {
             let mut have_base_address = have_unit_base_address;
@@ -89,13 +91,12 @@ impl RangeListTable {
                 // than required, but still seems reasonable.
                 match *range {
                     Range::BaseAddress { address } => {
-                        let marker = !0 >> (64 - address_size * 8);
                         w.write_udata(marker, address_size)?;
                         w.write_address(address, address_size)?;
                         have_base_address = true;
                     }
                     Range::OffsetPair { begin, end } => {
-                        if begin == end {
+                        if begin == end || begin == marker {
                             return Err(Error::InvalidRange);
                         }
                         if !have_base_address {
@@ -105,7 +106,7 @@ impl RangeListTable {
                         w.write_udata(end, address_size)?;
                     }
                     Range::StartEnd { begin, end } => {
-                        if begin == end {
+                        if begin == end || begin == Address::Constant(marker) {
                             return Err(Error::InvalidRange);
                         }
                         if have_base_address {
@@ -127,7 +128,7 @@ impl RangeListTable {
                                     .ok_or(Error::InvalidRange)?,
                             },
                         };
-                        if begin == end {
+                        if begin == end || begin == Address::Constant(marker) {
                             return Err(Error::InvalidRange);
                         }
                         if have_base_address {
